@@ -27,7 +27,7 @@ RULE = ("Scenarios: first write, overwrite, overwrite with larger / smaller payl
 ASSUME = ["a crash is modelled as process death (os._exit / SIGKILL): data handed to the kernel survives; power-loss reordering below the file "
           "system is not modelled", "sidecars that are valid JSON but not an object are outside 'not valid JSON' and not generated",
           "old / new reference states come from uncut runs of the real code in the same pre-state"]
-BUDGET = {"quick": {"scenarios": 14, "byte_step": 2, "strace_scenarios": 8, "corrupt_step": 2},
+BUDGET = {"quick": {"scenarios": 15, "byte_step": 2, "strace_scenarios": 8, "corrupt_step": 2},
           "thorough": {"scenarios": 96, "byte_step": 1, "strace_scenarios": 96, "corrupt_step": 1}}
 NSHARDS = 8
 
@@ -83,6 +83,9 @@ def scenarios(al, n):
         {"name": "set_attribute_and_kwargs", "pre": [("create", "F1", {"k1": "OLD", "k2": "OLD2"})], "op": ("setmixed", "F1", {"k1": "NEW", "k2": "N2"})},
         {"name": "task_folder", "pre": [("create", "T", {"a": 1, "b": [1, 2], "c": {"d": "e"}})], "op": ("update", "T", {"b": [3], "z": "new"})},
     ]
+    if "A" in al:
+        # an entity of a free-text folder level (its siblings are whatever the folder holds: a left-over file there would be an entity)
+        base.insert(2, {"name": "open_level_folder", "pre": [("create", "A", {"k1": "OLD"})], "op": ("set", "A", {"k1": "NEW", "k4": "N4"})})
     out = list(base)
     i = 0
     while len(out) < n:
